@@ -64,12 +64,17 @@ package biscuit
 //@ modifies nothing
 //@ loop 0 invariant forall j int :: { blocks[j] } 0 <= j && j < #i ==> blocks[j] != nil && fresh(blocks[j]) && wfBlock(blocks[j])
 //@ loop 0 invariant len(blocks) == len(b.blocks) && fresh(arr(blocks)) && fresh(authority) && wfBlock(authority)
+//@ loop 0 invariant content: *authority == *b.authority && (forall j int :: { blocks[j] } 0 <= j && j < #i ==> *blocks[j] == *b.blocks[j])
 //@ ensures no_token_on_error: err != nil ==> res == nil
 //@ ensures refuses_sealed: !hasNextSecret(b.container.Proof) ==> err != nil
 //@ ensures wf: err == nil ==> wfToken(res) && len(res.blocks) == len(b.blocks)
 //@ ensures keyid[C16]: err == nil ==> optEq(res.container.RootKeyId, b.container.RootKeyId)
 //@ ensures envelope_same: err == nil ==> res.container.Authority == b.container.Authority && len(res.container.Blocks) == len(b.container.Blocks) && (forall i int :: { res.container.Blocks[i] } 0 <= i && i < len(b.container.Blocks) ==> res.container.Blocks[i] == b.container.Blocks[i])
 //@ ensures sealed: err == nil ==> hasFinalSig(res.container.Proof) && !hasNextSecret(res.container.Proof)
+//@ ensures seal_signs[C09]: err == nil && *lastSB(b.container).NextKey.Algorithm >= 0 ==> bview(finalSig(res.container.Proof)) == edSign(privOfSeed(bview(nextSecret(b.container.Proof))), sealPayload(lastSB(b.container)))
+//@ ensures seal_verifies[C09]: err == nil && proofOK(b.container) && *lastSB(b.container).NextKey.Algorithm >= 0 ==> proofOK(res.container)
+//@ ensures content_same[C09]: err == nil ==> *res.authority == *b.authority && (forall i int :: { res.blocks[i] } 0 <= i && i < len(b.blocks) ==> *res.blocks[i] == *b.blocks[i])
+//@ ensures symbols_same[C09]: err == nil ==> len(*res.symbols) == len(*b.symbols) && (forall j int :: { (*res.symbols)[j] } 0 <= j && j < len(*b.symbols) ==> (*res.symbols)[j] == (*b.symbols)[j])
 
 // ---------------------------------------------------------------------------
 // converters, token -> wire (C07 C10)
@@ -574,44 +579,77 @@ package biscuit
 //@ requires authInv(v)
 //@ modifies v.dirty, *v.world.facts, spare(*v.world.facts), v.world.rules, spare(v.world.rules), *v.symbols, spare(*v.symbols), v.block_worlds, spare(v.block_worlds)
 //@ loop 0 modifies *v.world.facts, spare(*v.world.facts), *v.symbols, spare(*v.symbols)
-//@ loop 0 invariant authInv(v)
+//@ loop 0 invariant wf: authWF(v)
+//@ loop 0 invariant content: contentWF(v.biscuit)
+//@ loop 0 invariant fapart: factsApart(v)
+//@ loop 0 invariant rapart: rulesApart(v)
 //@ loop 0 invariant syms: tableGrown(*v.symbols, old(*v.symbols)) && tableGrownInLoop(*v.symbols, pre(*v.symbols))
 //@ loop 0 invariant facts: factsGrown(*v.world.facts, old(*v.world.facts)) && factsGrownInLoop(*v.world.facts, pre(*v.world.facts))
 //@ loop 1 modifies v.world.rules, spare(v.world.rules), *v.symbols, spare(*v.symbols)
-//@ loop 1 invariant authInv(v)
+//@ loop 1 invariant wf: authWF(v)
+//@ loop 1 invariant content: contentWF(v.biscuit)
+//@ loop 1 invariant fapart: factsApart(v)
+//@ loop 1 invariant rapart: rulesApart(v)
 //@ loop 1 invariant syms: tableGrown(*v.symbols, old(*v.symbols)) && tableGrownInLoop(*v.symbols, pre(*v.symbols))
 //@ loop 1 invariant facts: factsGrown(*v.world.facts, old(*v.world.facts))
 //@ loop 1 invariant rules: rulesGrown(v.world.rules, old(v.world.rules)) && rulesGrownInLoop(v.world.rules, pre(v.world.rules))
 //@ loop 2 modifies spare(errs), *v.symbols, spare(*v.symbols)
-//@ loop 2 invariant authInv(v) && len(*v.world.facts) < v.world.runLimits.maxFacts
+//@ loop 2 invariant wf: authWF(v)
+//@ loop 2 invariant content: contentWF(v.biscuit)
+//@ loop 2 invariant fapart: factsApart(v)
+//@ loop 2 invariant rapart: rulesApart(v)
+//@ loop 2 invariant more: len(*v.world.facts) < v.world.runLimits.maxFacts
 //@ loop 2 invariant syms: tableGrown(*v.symbols, old(*v.symbols)) && tableGrownInLoop(*v.symbols, pre(*v.symbols))
 //@ loop 2 invariant facts: factsGrown(*v.world.facts, old(*v.world.facts))
 //@ loop 2 invariant errsA: (cap(errs) == 0 || fresh(arr(errs)))
 //@ loop 2 invariant errsB: (arr(errs) == arr(pre(errs)) && off(errs) == off(pre(errs)) && cap(errs) == cap(pre(errs)) && len(errs) >= len(pre(errs))) || freshInLoop(arr(errs))
 //@ loop 2 invariant errsC: forall k int :: { errs[k] } 0 <= k && k < len(errs) ==> errs[k] != nil
 //@ loop 3 modifies *v.symbols, spare(*v.symbols)
-//@ loop 3 invariant authInv(v) && checkWF(c)
+//@ loop 3 invariant wf: authWF(v)
+//@ loop 3 invariant content: contentWF(v.biscuit)
+//@ loop 3 invariant fapart: factsApart(v)
+//@ loop 3 invariant rapart: rulesApart(v)
+//@ loop 3 invariant more: checkWF(c)
 //@ loop 3 invariant syms: tableGrown(*v.symbols, old(*v.symbols)) && tableGrownInLoop(*v.symbols, pre(*v.symbols))
 //@ loop 4 modifies spare(errs), *v.symbols, spare(*v.symbols)
-//@ loop 4 invariant authInv(v) && len(*v.world.facts) < v.world.runLimits.maxFacts
+//@ loop 4 invariant wf: authWF(v)
+//@ loop 4 invariant content: contentWF(v.biscuit)
+//@ loop 4 invariant fapart: factsApart(v)
+//@ loop 4 invariant rapart: rulesApart(v)
+//@ loop 4 invariant more: len(*v.world.facts) < v.world.runLimits.maxFacts
 //@ loop 4 invariant syms: tableGrown(*v.symbols, old(*v.symbols)) && tableGrownInLoop(*v.symbols, pre(*v.symbols))
 //@ loop 4 invariant facts: factsGrown(*v.world.facts, old(*v.world.facts))
 //@ loop 4 invariant errsA: (cap(errs) == 0 || fresh(arr(errs)))
 //@ loop 4 invariant errsB: (arr(errs) == arr(pre(errs)) && off(errs) == off(pre(errs)) && cap(errs) == cap(pre(errs)) && len(errs) >= len(pre(errs))) || freshInLoop(arr(errs))
 //@ loop 4 invariant errsC: forall k int :: { errs[k] } 0 <= k && k < len(errs) ==> errs[k] != nil
 //@ loop 5 modifies *v.symbols, spare(*v.symbols)
-//@ loop 5 invariant authInv(v) && checkWF(c)
+//@ loop 5 invariant wf: authWF(v)
+//@ loop 5 invariant content: contentWF(v.biscuit)
+//@ loop 5 invariant fapart: factsApart(v)
+//@ loop 5 invariant rapart: rulesApart(v)
+//@ loop 5 invariant more: checkWF(c)
 //@ loop 5 invariant syms: tableGrown(*v.symbols, old(*v.symbols)) && tableGrownInLoop(*v.symbols, pre(*v.symbols))
 //@ loop 6 modifies *v.symbols, spare(*v.symbols)
-//@ loop 6 invariant authInv(v) && len(*v.world.facts) < v.world.runLimits.maxFacts
+//@ loop 6 invariant wf: authWF(v)
+//@ loop 6 invariant content: contentWF(v.biscuit)
+//@ loop 6 invariant fapart: factsApart(v)
+//@ loop 6 invariant rapart: rulesApart(v)
+//@ loop 6 invariant more: len(*v.world.facts) < v.world.runLimits.maxFacts
 //@ loop 6 invariant syms: tableGrown(*v.symbols, old(*v.symbols)) && tableGrownInLoop(*v.symbols, pre(*v.symbols))
 //@ loop 6 invariant facts: factsGrown(*v.world.facts, old(*v.world.facts))
 //@ loop 6 invariant verdict: (policyResult == nil ==> (exists p int :: { v.policies[p] } 0 <= p && p < #i && v.policies[p].Kind == PolicyKindAllow)) && (!policyMatched ==> policyResult != nil)
 //@ loop 7 modifies *v.symbols, spare(*v.symbols)
-//@ loop 7 invariant authInv(v)
+//@ loop 7 invariant wf: authWF(v)
+//@ loop 7 invariant content: contentWF(v.biscuit)
+//@ loop 7 invariant fapart: factsApart(v)
+//@ loop 7 invariant rapart: rulesApart(v)
 //@ loop 7 invariant syms: tableGrown(*v.symbols, old(*v.symbols)) && tableGrownInLoop(*v.symbols, pre(*v.symbols))
 //@ loop 8 modifies v.block_worlds, spare(v.block_worlds), spare(errs), *v.symbols, spare(*v.symbols), spare(*v.world.facts)
-//@ loop 8 invariant authInv(v) && len(*v.world.facts) < v.world.runLimits.maxFacts
+//@ loop 8 invariant wf: authWF(v)
+//@ loop 8 invariant content: contentWF(v.biscuit)
+//@ loop 8 invariant fapart: factsApart(v)
+//@ loop 8 invariant rapart: rulesApart(v)
+//@ loop 8 invariant more: len(*v.world.facts) < v.world.runLimits.maxFacts
 //@ loop 8 invariant syms: tableGrown(*v.symbols, old(*v.symbols)) && tableGrownInLoop(*v.symbols, pre(*v.symbols))
 //@ loop 8 invariant errsA: (cap(errs) == 0 || fresh(arr(errs)))
 //@ loop 8 invariant errsB: (arr(errs) == arr(pre(errs)) && off(errs) == off(pre(errs)) && cap(errs) == cap(pre(errs)) && len(errs) >= len(pre(errs))) || freshInLoop(arr(errs))
@@ -619,25 +657,45 @@ package biscuit
 //@ loop 8 invariant facts: factsGrown(*v.world.facts, old(*v.world.facts))
 //@ loop 8 invariant worlds: worldsGrown(v.block_worlds, old(v.block_worlds)) && worldsGrownInLoop(v.block_worlds, pre(v.block_worlds))
 //@ loop 9 modifies *block_world.facts, spare(*block_world.facts), *v.symbols, spare(*v.symbols)
-//@ loop 9 invariant authInv(v)
-//@ loop 9 invariant bw: blockWorldOK(v, block_world)
+//@ loop 9 invariant wf: authWF(v)
+//@ loop 9 invariant content: contentWF(v.biscuit)
+//@ loop 9 invariant fapart: factsApart(v)
+//@ loop 9 invariant rapart: rulesApart(v)
+//@ loop 9 invariant bwc: bwCells(block_world)
+//@ loop 9 invariant bwf: bwFacts(v, block_world)
+//@ loop 9 invariant bwr: bwRules(block_world)
 //@ loop 9 invariant syms: tableGrown(*v.symbols, old(*v.symbols)) && tableGrownInLoop(*v.symbols, pre(*v.symbols))
 //@ loop 9 invariant facts: factsGrown(*v.world.facts, old(*v.world.facts)) && factsGrownInLoop(*block_world.facts, pre(*block_world.facts))
 //@ loop 10 modifies block_world.rules, spare(block_world.rules), *v.symbols, spare(*v.symbols)
-//@ loop 10 invariant authInv(v)
-//@ loop 10 invariant bw: blockWorldOK(v, block_world)
+//@ loop 10 invariant wf: authWF(v)
+//@ loop 10 invariant content: contentWF(v.biscuit)
+//@ loop 10 invariant fapart: factsApart(v)
+//@ loop 10 invariant rapart: rulesApart(v)
+//@ loop 10 invariant bwc: bwCells(block_world)
+//@ loop 10 invariant bwf: bwFacts(v, block_world)
+//@ loop 10 invariant bwr: bwRules(block_world)
 //@ loop 10 invariant syms: tableGrown(*v.symbols, old(*v.symbols)) && tableGrownInLoop(*v.symbols, pre(*v.symbols))
 //@ loop 10 invariant rules: factsGrown(*v.world.facts, old(*v.world.facts)) && rulesGrownInLoop(block_world.rules, pre(block_world.rules))
 //@ loop 11 modifies spare(errs), *v.symbols, spare(*v.symbols)
-//@ loop 11 invariant authInv(v)
-//@ loop 11 invariant bw: blockWorldOK(v, block_world)
+//@ loop 11 invariant wf: authWF(v)
+//@ loop 11 invariant content: contentWF(v.biscuit)
+//@ loop 11 invariant fapart: factsApart(v)
+//@ loop 11 invariant rapart: rulesApart(v)
+//@ loop 11 invariant bwc: bwCells(block_world)
+//@ loop 11 invariant bwf: bwFacts(v, block_world)
+//@ loop 11 invariant bwr: bwRules(block_world)
 //@ loop 11 invariant syms: tableGrown(*v.symbols, old(*v.symbols)) && tableGrownInLoop(*v.symbols, pre(*v.symbols))
 //@ loop 11 invariant errsA: (cap(errs) == 0 || fresh(arr(errs)))
 //@ loop 11 invariant errsB: (arr(errs) == arr(pre(errs)) && off(errs) == off(pre(errs)) && cap(errs) == cap(pre(errs)) && len(errs) >= len(pre(errs))) || freshInLoop(arr(errs))
 //@ loop 11 invariant errsC: forall k int :: { errs[k] } 0 <= k && k < len(errs) ==> errs[k] != nil
 //@ loop 12 modifies *v.symbols, spare(*v.symbols)
-//@ loop 12 invariant authInv(v)
-//@ loop 12 invariant bw: blockWorldOK(v, block_world)
+//@ loop 12 invariant wf: authWF(v)
+//@ loop 12 invariant content: contentWF(v.biscuit)
+//@ loop 12 invariant fapart: factsApart(v)
+//@ loop 12 invariant rapart: rulesApart(v)
+//@ loop 12 invariant bwc: bwCells(block_world)
+//@ loop 12 invariant bwf: bwFacts(v, block_world)
+//@ loop 12 invariant bwr: bwRules(block_world)
 //@ loop 12 invariant cwf: checkWF(c)
 //@ loop 12 invariant syms: tableGrown(*v.symbols, old(*v.symbols)) && tableGrownInLoop(*v.symbols, pre(*v.symbols))
 //@ loop 13 modifies elems(errMsg)
@@ -652,3 +710,47 @@ package biscuit
 //@ loop 0 invariant len(result) == #i && cap(result) == len(*facts) && fresh(arr(result)) && factsWF(*facts)
 //@ ensures limit_error_is_reported[C11]: err == nil ==> len(*v.world.facts) < v.world.runLimits.maxFacts
 //@ ensures base_untouched[C13]: v.baseWorld == old(v.baseWorld) && v.baseSymbols == old(v.baseSymbols)
+
+// ---------------------------------------------------------------------------
+// read-only accessors of a token (C17 C09 C10)
+
+//@ func (b *Biscuit) RevocationIds() (res [][]byte)
+//@ serves C09 C10 C17
+//@ requires wfToken(b)
+//@ modifies nothing
+//@ loop 0 invariant len(result) == #i + 1 && cap(result) == len(b.blocks) + 1 && fresh(arr(result)) && off(result) == 0 && result[0] == b.container.Authority.Signature
+//@ loop 0 invariant forall k int :: { result[k] } 1 <= k && k < len(result) ==> result[k] == b.container.Blocks[k-1].Signature
+//@ ensures one_per_block[C17]: len(res) == len(b.container.Blocks) + 1
+//@ ensures authority_first[C17]: res[0] == b.container.Authority.Signature
+//@ ensures block_signatures[C17]: forall k int :: { res[k] } 1 <= k && k < len(res) ==> res[k] == b.container.Blocks[k-1].Signature
+//@ ensures fresh_list: fresh(arr(res))
+
+//@ func (b *Biscuit) BlockCount() (res int)
+//@ serves C10 C17
+//@ requires b != nil && b.container != nil
+//@ modifies nothing
+//@ ensures res == len(b.container.Blocks)
+
+//@ func (b *Biscuit) Checks() (res [][]datalog.Check)
+//@ serves C10
+//@ requires wfToken(b)
+//@ modifies nothing
+//@ loop 0 invariant len(result) == #i + 1 && cap(result) == len(b.blocks) + 1 && fresh(arr(result)) && off(result) == 0
+//@ ensures len(res) == len(b.blocks) + 1 && fresh(arr(res))
+
+//@ func (b *Biscuit) GetContext() (res string)
+//@ serves C10
+//@ modifies nothing
+//@ ensures b != nil && b.authority != nil ==> res == b.authority.context
+
+//@ func (b *Biscuit) Serialize() (res []byte, err error)
+//@ serves C08 C10 C19
+//@ requires b != nil
+//@ modifies nothing
+
+//@ func (b *Biscuit) GetBlockID(fact Fact) (res int, err error)
+//@ serves C08 C10 C19
+//@ requires contentWF(b) && bPredWF(fact.Predicate)
+//@ modifies nothing
+//@ ensures found: err == nil ==> 0 <= res && res <= len(b.blocks)
+//@ ensures not_found: err != nil ==> res == 0 && err == ErrFactNotFound
